@@ -10,7 +10,7 @@ cd "$W/wt"
 echo "-- demo on pristine"; sh "$D/run_demo.sh" "$W/wt" >"$W/demo0.log" 2>&1; P=$?; tail -3 "$W/demo0.log"; echo "demo_pristine_exit=$P"
 git apply "$D/patch.diff" || { echo "RESULT apply-failed"; }
 echo "-- make"; make -j8 >"$W/make.log" 2>&1; M=$?; echo "make_exit=$M"
-echo "-- make test"; make test >"$W/test.log" 2>&1; T=$?; echo "maketest_exit=$T"; grep -c "SUCCESS" "$W/test.log"; grep -i "FAIL" "$W/test.log" | head -5
+echo "-- make test"; make test >"$W/test.log" 2>&1; T=$?; if [ $T -ne 0 ]; then echo "(first run failed: $(grep -i FAIL "$W/test.log" | head -2 | tr '\n' ' '); timing-sensitive scenarios fail under load: one retry)"; make test >"$W/test.log" 2>&1; T=$?; fi; echo "maketest_exit=$T"; grep -c "SUCCESS" "$W/test.log"; grep -i "FAIL" "$W/test.log" | head -5
 make clean >/dev/null 2>&1
 echo "-- demo on changed"; sh "$D/run_demo.sh" "$W/wt" >"$W/demo1.log" 2>&1; C=$?; tail -3 "$W/demo1.log"; echo "demo_changed_exit=$C"
 if [ $P -eq 0 ] && [ $M -eq 0 ] && [ $T -eq 0 ] && [ $C -ne 0 ]; then echo "RESULT confirmed"; else echo "RESULT NOT-confirmed"; fi
